@@ -161,6 +161,54 @@ func runC07(c *Ctx) {
 		}
 	}
 
+	// zero-key pre-test (if key(f) == 0 { return false }): with key(f) == 0 no non-negative key is
+	// smaller, so "key(r) < key(f)" is false.  Z = (key == 0) is rebuilt from the key expression of
+	// the comparison; the atoms only Z contributes (the emptiness of the base sum) are eliminated
+	// if, under the arithmetic fact Z => !(X < key), the function with them set to false is the
+	// same function — the general path, which is what the order axioms are checked on.
+	for _, cmp := range u.AtomsOf(H) {
+		if cmp.Op != "lt" || !mentions(cmp, fP) || !mentions(cmp, rP) {
+			continue
+		}
+		X, K := cmp.Args[0], cmp.Args[1]
+		if !nonNegKey(u, X) || !nonNegKey(u, K) {
+			continue
+		}
+		Z := u.ToBool(u.Eq(K, u.Int(0)))
+		if Z == False || Z == True {
+			continue
+		}
+		ax := u.bdd.Imp(Z, u.bdd.Not(u.Atom(cmp)))
+		for _, p := range u.AtomsOf(Z) {
+			if p.Op != "eq" || !(isIntConst(p.Args[1], 0) || isIntConst(p.Args[0], 0)) || !u.bdd.Implies(Z, u.Atom(p)) {
+				continue
+			}
+			// only the emptiness of a computed sum is private to the pre-test; the flags of the key
+			// (len(list) == 0, ...) are observables of the rule in their own right
+			sum := p.Args[0]
+			if isIntConst(sum, 0) {
+				sum = p.Args[1]
+			}
+			if !(sum.Op == "bin" && sum.Aux == "+") && !(sum.Op == "call" && strings.HasPrefix(sum.Aux, "math/bits.OnesCount")) {
+				continue
+			}
+			inH := false
+			for _, v := range u.bdd.Support(H) {
+				if v == u.atomIx[p.key] {
+					inH = true
+				}
+			}
+			if !inH {
+				continue
+			}
+			G := u.bdd.Cofactor(H, u.atomIx[p.key], false)
+			if c.Check(u.bdd.And(H, ax) == u.bdd.And(G, ax), "C07.R1", "IsHigherPriority: zero-key pre-test agrees with the general path", ihp.Pos(),
+				"under key == 0 => !(X < key) the pre-test changes nothing", "a pre-test on "+clip(u.Show(p), 100)+" answers differently from the comparison it short-cuts") {
+				H = G
+			}
+		}
+	}
+
 	type keyAtom struct {
 		atom   *E
 		fSide  *E
@@ -802,4 +850,26 @@ func substAtomKey(u *U, at *E, m map[string]*E) string {
 		}
 	}
 	return r.key
+}
+
+// nonNegKey: a sum of bit counts, lengths, non-negative constants and selections among such.
+func nonNegKey(u *U, e *E) bool {
+	if v, ok := e.IntVal(); ok {
+		return v >= 0
+	}
+	switch e.Op {
+	case "len", "cap":
+		return true
+	case "call":
+		return strings.HasPrefix(e.Aux, "math/bits.OnesCount")
+	case "bin":
+		if e.Aux == "+" {
+			return nonNegKey(u, e.Args[0]) && nonNegKey(u, e.Args[1])
+		}
+	case "ite":
+		return nonNegKey(u, e.Args[0]) && nonNegKey(u, e.Args[1])
+	case "convert":
+		return nonNegKey(u, e.Args[0])
+	}
+	return false
 }
